@@ -177,8 +177,8 @@ Proof.
   induction kv as [|[k v] t IH]; [reflexivity|].
   cbn [map src_is_mapper_simple_loop1 fst snd forallb py_str_endswith bind].
   rewrite str_endswith_ends_with. fold dot_mapper.
-  destruct (ends_with dot_mapper k); cbn [negb andb]; [reflexivity|].
-  destruct v; cbn [mval_py py_isinstance existsb isinstance1 orb py_not bind negb]; try reflexivity.
+  destruct v; destruct (ends_with dot_mapper k);
+    cbn [mval_py py_isinstance existsb isinstance1 orb py_not bind negb andb]; try reflexivity.
   exact IH.
 Qed.
 
